@@ -33,7 +33,7 @@ var propMeta = map[string]Meta{
 		Real: []string{"pkg/network Router, routerCore reader goroutine, mailboxes, Namespaced views, SendTo/ReceiveFrom, Close", "pkg/network/echo rounds and runner", "pkg/network/exchange helpers", "pkg/base/serde (CBOR envelope)"},
 		Stub: commonStub,
 		ExpectedProbes: []string{"dup", "redeliver", "inject", "conflict", "cancel", "close", "terr", "recv_invoked_before_arrival", "recv_invoked_when_ready",
-			"duplicate_after_consumption_buffered", "conflict_poisoned_receive", "cancel_with_partial_mailbox", "retry_after_cancel_completed", "inject_nonmember", "inject_other_namespace", "inject_nonparticipant", "inject_unknown_cid",
+			"duplicate_after_consumption_buffered", "conflict_poisoned_receive", "cancel_with_partial_mailbox", "retry_after_cancel_completed", "inject_nonmember", "inject_other_namespace", "inject_nonparticipant", "inject_unknown_cid", "inject_forged_envelope_origin", "buffer_below", "buffer_drift", "buffer_dups", "buffer_above",
 			"fine_task_steps", "fully_quiescent_states", "histories_checked"},
 		FineStep:     true,
 		QuickBudgetS: 240, ThoroughBudgetS: 2400,
@@ -66,7 +66,7 @@ func init() {
 		Rule: "Each evaluation is one seeded simulated signing run: generated access structure (five families incl. non-ideal ones, 2-5 holders, sparse/large ids) with its independent reference predicate, key material from the trusted dealer or from a Gennaro/Canetti DKG run in the same simulated cluster, a qualified quorum drawn from the reference evaluator (minimal, minimal+extra, all holders), a message (empty, 1 byte, 32 bytes, 1 KiB, text), real session setup (a third of the runs: contexts derived with SubContext from one parent session, per party in its own order) + real signing runner of the chosen protocol over the simulated network with reordering, duplication, redelivery and foreign injection, 1-2 concurrent signing sessions per key; every quorum member and one outsider aggregate. Non-trivial = at least one non-FIFO delivery or injected fault. Distinct = hash of (workload, configuration class, decision trace).",
 		Assumptions: []string{"independent verifiers: ECDSA and BIP-340 and plain Schnorr written from their specifications over /verif/ref curve arithmetic, plus crypto/ecdsa (P-256) and crypto/ed25519 where wire-compatible; BLS and Mina use the library verifier plus an omniscient algebraic check (semi-independent)", "message hashing uses the Go standard library hash functions"},
 		Real: []string{"pkg/mpc/signatures: schnorr/lindell22 (BIP-340, plain Schnorr, Mina), ecdsa/dkls23 (bbot, softspoken), ecdsa/lindell17 (signing, trusted dealer, DKG), ecdsa/cggmp21 (signing, trusted dealer; auxiliary DKG in the thorough tier), bls/boldyreva02 (short and long keys, three rogue-key schemes) as listed in per_workload", "pkg/encryption/paillier, pkg/proofs/paillier (lp, lpdl, range) through Lindell17", "pkg/mpc/session, dkg, sharing, zero", "pkg/ot, pkg/mpc/rvole", "pkg/network router, echo, exchange", "pkg/signatures verifiers", "curves, fields, proofs, commitments"},
-		Stub: commonStub, ExpectedProbes: []string{"dup", "redeliver", "inject", "quorum_minimal", "quorum_non_minimal", "quorum_all_holders", "non_cosigning_aggregator", "concurrent_signing_sessions", "non_ideal_structure", "keysource_gennaro", "keysource_canetti", "keysource_dealer", "independent_verifications", "semi_independent_verifications", "omniscient_checks", "signing_context_from_subcontext", "lindell17_dkg_completed", "cggmp21_dkg_completed"},
+		Stub: commonStub, ExpectedProbes: []string{"dup", "redeliver", "inject", "quorum_minimal", "quorum_non_minimal", "quorum_all_holders", "non_cosigning_aggregator", "concurrent_signing_sessions", "non_ideal_structure", "keysource_gennaro", "keysource_canetti", "keysource_dealer", "independent_verifications", "semi_independent_verifications", "omniscient_checks", "signing_context_from_subcontext", "lindell17_dkg_completed", "cggmp21_dkg_completed", "round_by_round_runs"},
 		QuickBudgetS: 300, ThoroughBudgetS: 2700,
 	}
 }
@@ -74,7 +74,7 @@ func init() {
 func init() {
 	propMeta["C04"] = Meta{
 		Level: "fault_enumeration",
-		Rule: "The fault space is the finite set of cells (protocol scenario in {session setup, Gennaro, Canetti, Lindell22/BIP-340, DKLs23 x2, agree-on-random, redistribution with/without anchor and to a disjoint set of newcomers, Lindell17 signing x2, Lindell17 DKG (3-party variant thorough only), Boldyreva x2}, corrupt party position, message type, recipient for unicasts, leaf of the CBOR encoding at normalised path (first and last instance of repeated positions), operator in {bit flip low/high, replace by the value at the same position of another sender's / the parallel session's message, swap two leaves, increment, truncate, extend, drop, replay of another sender's / the parallel session's / another recipient's whole message}). Cells are derived from the recorded messages of an honest inventory run with the same seed; each evaluation re-runs the scenario (real runners, real echo broadcast, a parallel untouched session) with exactly one cell applied on the corrupt party's outgoing link, a broadcast being altered identically in all copies. The quick tier visits every cell of the cheap scenarios (agree-on-random, redistribution x3, Lindell17 signing, Boldyreva) and an evenly spread subset of the others, the thorough tier every cell (scenarios whose single run costs tens of seconds use a reduced operator set). Non-trivial = the tamper changed the bytes on the wire. Distinct = distinct cell labels.",
+		Rule: "The fault space is the finite set of cells (protocol scenario in {session setup, Gennaro, Canetti, Lindell22/BIP-340, DKLs23 x2, agree-on-random, redistribution with/without anchor and to a disjoint set of newcomers, Lindell17 signing x2, Lindell17 DKG (3-party variant thorough only), Boldyreva x2}, corrupt party position, message type, recipient for unicasts, leaf of the CBOR encoding at normalised path (first and last instance of repeated positions), operator in {bit flip low/high, replace by the value at the same position of another sender's / the parallel session's message, swap two leaves (two instances of a repeated position, or two sibling fields of the same kind), increment, truncate, extend, drop, replay of another sender's / the parallel session's / another recipient's whole message}). Cells are derived from the recorded messages of an honest inventory run with the same seed; each evaluation re-runs the scenario (real runners, real echo broadcast, a parallel untouched session) with exactly one cell applied on the corrupt party's outgoing link, a broadcast being altered identically in all copies. The quick tier visits every cell of the cheap scenarios (agree-on-random, redistribution x3, Lindell17 signing, Boldyreva) and an evenly spread subset of the others, the thorough tier every cell (scenarios whose single run costs tens of seconds use a reduced operator set). Non-trivial = the tamper changed the bytes on the wire. Distinct = distinct cell labels.",
 		Assumptions: []string{
 			"binding table: every leaf is treated as bound unless listed as free with a written justification (session round-1 commitment key); operators that only append surplus data are accepted when every party ends with exactly the outputs of the unaltered run (decoding strictness is C12's subject)",
 			"the corrupt party runs honest code; its deviation is applied on the wire, so the deviating party's own later state is consistent with the untampered message",
